@@ -181,7 +181,7 @@ def skeleton_correspondence(ctx, decorated):
 def mechanisms(d: Decorated):
     """Which of the confirmed defect mechanisms are present in this decorated program (exact detectors)."""
     m = {"two_orders": False, "while_break": False, "for_bound": False, "float_mod": False, "returns_input": False,
-         "nested_domain": False, "dup_subgraph_output": False}
+         "nested_domain": False, "dup_subgraph_output": False, "param_shadow_if": False}
     for fp in d.funcs:
         f = d.onnx_function(fp["name"])
         if f is None or not hasattr(f, "to_function_proto"):
@@ -198,6 +198,7 @@ def mechanisms(d: Decorated):
         m["dup_subgraph_output"] |= c01_run.subgraph_lists_value_twice(proto)
         m["for_bound"] |= c01_run.for_bound_not_live(d.source, fp["name"], c01_gen.analysis_globals(d.prog))
         m["float_mod"] |= "float-mod-tensor" in fp.get("features", [])
+        m["param_shadow_if"] |= c01_run.if_test_parameter_shadows_global(d.source, fp["name"], set(d.prog["globals"]))
     return m
 
 
@@ -210,6 +211,8 @@ def classify(mech, which, text):
         return "C01:function-proto:domain-used-only-in-subgraph-not-imported:fails-in-ort"
     if which == "function" and mech["returns_input"] and "it.GetName().empty()" in text:
         return "C01:function-proto:graph-input-returned-directly:fails-in-ort"
+    if mech.get("param_shadow_if") and which in ("model", "function"):
+        return "C01:if-test-parameter-shadows-module-global:branch-chosen-at-decoration"
     if mech["dup_subgraph_output"] and which in ("model", "function"):
         return "C01:subgraph-lists-a-value-twice"
     if mech["two_orders"]:
@@ -261,6 +264,9 @@ def direct_oracle(ctx, d: Decorated, stats, n_sets, rng, worker):
         except c01_interp.Inexact:
             N = None
             stats["numpy_skipped_steps"] += 1
+        except c01_interp.Undefined:
+            N = None                    # an integer index outside the extent: the property claims nothing on this input
+            stats["numpy_undefined_input"] += 1
         # ---- eager
         try:
             E = c01_interp.run_eager(f, prog, tensors, attrs)
@@ -309,6 +315,122 @@ def direct_oracle(ctx, d: Decorated, stats, n_sets, rng, worker):
         elif N is not None:
             stats["numpy_inexact_skipped"] += 1
     return flagged, mech
+
+
+# ----------------------------------------------------------------------------- subscript stream (runs in a child process)
+
+class _Recorder:
+    """Stands in for Ctx inside the child: records the calls, the parent replays them."""
+
+    def __init__(self):
+        self.calls = []
+
+    def case(self, key):
+        self.calls.append(("case", key))
+
+    def sample(self, obj):
+        self.calls.append(("sample", obj))
+
+    def violation(self, key, what, replay, found_input=True):
+        self.calls.append(("violation", key, what, replay, found_input))
+
+
+def sub_stream_main():
+    """Child process: decorate the programs of the subscript stream for real and run the four-way direct oracle on them.
+    The converter model has no subscript expression, so there is no analysis / skeleton correspondence for these."""
+    import pickle
+    import random as _random
+    import sys
+    import time as _time
+    payload = pickle.load(sys.stdin.buffer)
+    rec = _Recorder()
+    sstats, sfeats, mech_count = collections.Counter(), collections.Counter(), collections.Counter()
+    t0 = _time.time()
+    wd = c01_run.Workdir()
+    c01_run.quiet_ort()
+    cache = c01_run.OrtSessionCache()
+    cache.__enter__()
+    worker = c01_run.OrtWorker(timeout=20)
+    try:
+        for d in decorate_all(wd, payload["programs"], prefix="c01_s"):
+            for ft in d.prog["features"]:
+                sfeats[ft] += 1
+            if not d.accepted:
+                sstats["refused"] += 1
+                sstats["refused:" + type(d.exc).__name__] += 1
+                continue
+            sstats["accepted"] += 1
+            _flagged, mech = direct_oracle(rec, d, sstats, payload["n_sets"], _random.Random(payload["seeds"][d.idx]), worker)
+            for k, v in mech.items():
+                mech_count[k] += 1 if v else 0
+            if d.idx == payload["n_corpus"]:
+                rec.sample({"stream": "subscript", "source": d.source})
+    finally:
+        cache.__exit__(None, None, None)
+        worker.close()
+        sstats["ort_timeouts"] = worker.timeouts
+        wd.close()
+    with open(payload["result_path"], "wb") as f:
+        pickle.dump({"calls": rec.calls, "stats": dict(sstats), "features": dict(sfeats), "mechanisms": dict(mech_count),
+                     "seconds": round(_time.time() - t0, 1)}, f)
+
+
+class SubStreamChild:
+    def __init__(self, payload):
+        import pickle
+        import subprocess
+        import sys
+        import tempfile
+        self.dir = tempfile.mkdtemp(prefix="osverif-c01-sub-")
+        self.result_path = os.path.join(self.dir, "result.pkl")
+        self.err = open(os.path.join(self.dir, "stderr.txt"), "w+")
+        payload = dict(payload, result_path=self.result_path)
+        self.proc = subprocess.Popen([sys.executable, "-c", "from harness import c01; c01.sub_stream_main()"],
+                                     stdin=subprocess.PIPE, stdout=subprocess.DEVNULL, stderr=self.err, cwd=common.VERIF)
+        try:
+            self.proc.stdin.write(pickle.dumps(payload))
+            self.proc.stdin.close()
+        except Exception:  # noqa: BLE001 -- reported by collect()
+            pass
+
+    def collect(self, ctx, timeout=900):
+        """Wait for the child, replay what it recorded into ctx; a child that fails is a broken harness (fail-closed)."""
+        import pickle
+        import subprocess
+        try:
+            rc = self.proc.wait(timeout=timeout)
+        except subprocess.TimeoutExpired:
+            self.kill()
+            ctx.tie_broken("harness", "subscript-stream", "the child process did not finish in time")
+            return None
+        if rc != 0 or not os.path.exists(self.result_path):
+            self.err.seek(0)
+            ctx.tie_broken("harness", "subscript-stream", f"child process exit code {rc}: " + self.err.read()[-1500:])
+            return None
+        with open(self.result_path, "rb") as f:
+            res = pickle.load(f)
+        for call in res["calls"]:
+            if call[0] == "case":
+                ctx.case(call[1])
+            elif call[0] == "sample":
+                ctx.sample(call[1])
+            else:
+                ctx.violation(call[1], call[2], call[3], found_input=call[4])
+        return res
+
+    def kill(self):
+        import shutil
+        try:
+            if self.proc.poll() is None:
+                self.proc.kill()
+                self.proc.wait(timeout=5)
+        except Exception:  # noqa: BLE001
+            pass
+        try:
+            self.err.close()
+        except Exception:  # noqa: BLE001
+            pass
+        shutil.rmtree(self.dir, ignore_errors=True)
 
 
 LOOP_ELSE_SRC = c01_gen.HEADER + '''
@@ -379,6 +501,24 @@ def run(ctx):
     c01_run.quiet_ort()
     n_oracle = int((60 if quick else 600) * scale)
     input_seeds = [rng.getrandbits(64) for _ in programs]
+    # ---- subscript stream (drawn from its own generator, after everything the other streams consume)
+    import random as _random
+    sub_rng = _random.Random(rng.getrandbits(64))
+    n_sub = int((22 if quick else 400) * scale)
+    sub_programs = []
+    for prog in c01_gen.load_subscript_corpus():
+        sub_programs.append((prog, c01_gen.to_source(prog)))
+        ctx.case(("corpus", prog["name"]))
+    n_sub_corpus = len(sub_programs)
+    for i in range(n_sub):
+        prog = c01_gen.gen_subscript_program(sub_rng, i)
+        sub_programs.append((prog, c01_gen.to_source(prog)))
+        ctx.case(c01_gen.shape_key(prog))
+    sub_seeds = [sub_rng.getrandbits(64) for _ in sub_programs]
+    sstats = collections.Counter()
+    sfeats = collections.Counter()
+    # the subscript stream runs in a child process, concurrently with the correspondences and the oracle of the main stream
+    sub_child = SubStreamChild({"programs": sub_programs, "seeds": sub_seeds, "n_sets": n_sets, "n_corpus": n_sub_corpus})
     try:
         t1 = _time.time()
         decorated = decorate_all(wd, programs)
@@ -389,7 +529,6 @@ def run(ctx):
         t1 = _time.time()
         flagged_progs = set()
         mech_count = collections.Counter()
-        import random as _random
         cache = c01_run.OrtSessionCache()
         cache.__enter__()
         worker = c01_run.OrtWorker(timeout=20)
@@ -409,6 +548,16 @@ def run(ctx):
             if d.idx < 2:
                 ctx.sample({"source": d.source})
         phases["direct_oracle_s"] = round(_time.time() - t1, 1)
+        # ---- subscript stream: collected from the child process started above
+        t1 = _time.time()
+        res = sub_child.collect(ctx)
+        if res is not None:
+            sstats.update(res["stats"])
+            sfeats.update(res["features"])
+            for k, v in res["mechanisms"].items():
+                mech_count[k] += v
+            phases["subscript_stream_s"] = res["seconds"]
+        phases["subscript_stream_wait_s"] = round(_time.time() - t1, 1)
         # a model/implementation disagreement: the direct oracle has been evaluated on the program; if the property
         # failed there it is reported above with its input, otherwise the tie is broken
         for d, fp, acc, loops in broken:
@@ -419,6 +568,7 @@ def run(ctx):
         ctx.obligation(f"correspondence translate: Script/Translate.v = real function_ir (ops, arities, names, subgraph interfaces) on {n} functions "
                        f"({len(explained)} explained by the confirmed defects the model's legacy switch reproduces)", not broken)
     finally:
+        sub_child.kill()
         try:
             cache.__exit__(None, None, None)
             worker.close()
@@ -428,6 +578,19 @@ def run(ctx):
         wd.close()
     ctx.obligation("generator not degenerate: at least half of the programs are accepted by the decorator", stats["accepted"] * 2 >= n_prog,
                    f"accepted {stats['accepted']} of {n_prog + n_corpus}")
+    ctx.obligation("subscript stream not degenerate: at least half of its programs are accepted by the decorator",
+                   sstats["accepted"] * 2 >= len(sub_programs), f"accepted {sstats['accepted']} of {len(sub_programs)}")
+    ctx.assume("subscript stream: Script/Syntax.v has no subscript expression, so programs containing subscripts are checked by the "
+               "four-way direct oracle only (eager / ModelProto on onnxruntime / one-node model calling the FunctionProto / NumPy basic "
+               "indexing); no theorem and no skeleton correspondence covers them.  Index forms recorded as known findings of C11 "
+               "(tensor indices of rank >= 1, negative-step slices with a negative or run-time start) are not generated")
+    ctx.cover(subscript_stream=dict(programs=n_sub, corpus_programs=n_sub_corpus, features=dict(sorted(sfeats.items())), **dict(sstats)),
+              subscript_rule="same typed grammar with tensor subscripts as expressions at every nesting position (top level, then/else "
+                             "branches, for/while bodies, after the statement): integer indices (a negative one only alone), slices with "
+                             "literal bounds from {0,1,2,3,-1,-2,5,-5} / omitted / steps 1,2,-1,-2, bounds that are INT64 inputs, loop "
+                             "variables, int attribute parameters or module constants (+-1), up to rank indices, full-extent slices, "
+                             "subscripts of expressions; decoy module globals named like locals / parameters; extents 0..4 never below "
+                             "what the constant indices need")
     ctx.cover(rule="typed random programs of the ONNX Script subset (see C02) x >= 3 input sets (rank 0-3, a size-1 and a size-0 dim, "
                    "0, +-1, negative, large, attribute values with and without defaults); four executions compared: eager, ModelProto on "
                    "onnxruntime, one-node model calling the FunctionProto, NumPy reading; distinct key = control-flow skeleton",
